@@ -128,6 +128,21 @@ fn space(ctx: &Ctx, rep: &mut Report, n: usize) {
 pub fn run(ctx: &Ctx, rep: &mut Report) {
     space(ctx, rep, 6);
     space(ctx, rep, 7);
+    {
+        let d = deck();
+        let mut items = Vec::new();
+        // hands of a two-suit sub-deck: flushes, straights and pairs made / broken by one card
+        let sub: Vec<u32> = d.iter().filter(|c| c.suit() >= 2 && c.rank() >= 6).map(|c| c.word()).collect();
+        for k in 0..sub.len() {
+            let w7: Vec<u32> = (0..7).map(|i| sub[(k + i * 2) % sub.len()]).collect();
+            let w6: Vec<u32> = w7[..6].to_vec();
+            if super::c01::distinct_cards(&w7).is_some() {
+                items.push(Case::w32("seven.min_of_sixes", &w7));
+                items.push(Case::w32("six.min_of_fives", &w6));
+            }
+        }
+        super::history2(rep, judge, &items);
+    }
     rep.rule = "distinct six- and seven-card hands; non-trivial = only the forced number of sub-hands (1 of 6, 2 of 7) attains the minimum, i.e. the best five-card hand is unique and every other sub-hand is strictly weaker".into();
     rep.bound = "all six- and seven-card subsets in canonical slot order (slot-order independence is C02's)".into();
     rep.assume("v7 <= v6_i and v6 <= v5_j follow from the two minimum equalities checked on every hand");
